@@ -148,7 +148,25 @@ def main(tier):
     ev["prod_events"] = nev
     ev["prod_runs"] = len(jobs)
     log(f"[C11] production constants: {len(jobs)} recorded runs ({nev} events) validated against ByteStream by TLC")
-    cov = dict(states=ev["states"], transitions=ev["transitions"],
+    # Apalache (symbolic): the position maps and the end-of-stream formula at production constants, for every position < 2^40
+    import subprocess
+    import shutil
+    ad = workdir("c11-apalache")
+    try:
+        ap = subprocess.run(["apalache-mc", "check", "--init=Init", "--next=Next", "--inv=Inv", "--length=0", f"--out-dir={ad}",
+                             os.path.join(SPEC, "PosMaps.tla")], stdout=subprocess.PIPE, stderr=subprocess.STDOUT, text=True,
+                            timeout=600, cwd=ad)
+        ok = "EXITCODE: OK" in ap.stdout
+        ev["apalache"] = dict(lemma="RoundTrip, EndIsLength, InChunk for all p in 0..2^40 at CHUNK=131072", proved=ok)
+        if not ok and "The outcome is: Error" in ap.stdout:
+            v.violation(dict(check="apalache", module="PosMaps", stack="enc", kind="lemma-violated", L=-1, te=False, op="posmaps"),
+                        dict(output=ap.stdout[-2000:]))
+        elif not ok:
+            log("[C11] Apalache did not conclude (non-gating): " + ap.stdout[-300:])
+    except (subprocess.TimeoutExpired, FileNotFoundError) as e:
+        ev["apalache"] = dict(proved=False, note=f"not concluded: {e}")
+    shutil.rmtree(ad, ignore_errors=True)
+    cov = dict(states=ev["states"], transitions=ev["transitions"], apalache_lemma=ev.get("apalache"),
                traces_validated_against_impl=ev["runs"] + ev.get("prod_runs", 0), production_constant_events=ev.get("prod_events", 0), samples=ev["samples"][:3] or ["none"],
                edges_exported=ev["edges"], steps_replayed=ev["steps"], hidden_state_steps_compared=ev["hidden"],
                drift=ev["drifts"], drift_samples=ev["drift_samples"][:3], tlc_runs=ev["tlc"], constants=ev["constants"],
